@@ -174,6 +174,9 @@ EXPORT errno_t _wcsfc_s_chk(wchar_t *restrict dest, rsize_t dmax,
             return ESLEMAX;
         }
 #endif
+        /* every branch below stores up to four elements */
+        if (unlikely(dmax < 5))
+            goto too_small;
         c = iswfc(cp);
 #if SIZEOF_WCHAR_T == 2
         if (cp > 0xffff)
